@@ -218,12 +218,20 @@ let classify_m1 (st : mstate) (toks : string list) (model : string) (impl : stri
          && entrywise_match model ("cs[" ^ String.concat "|" rest ^ "]") then finding else None
   | ("crash" | "fault") :: o :: _ when starts_with "cr(viol,op=" impl || starts_with "fl(viol,op=" impl ->
       let has x = (try ignore (Str.search_forward (Str.regexp_string x) impl 0); true with Not_found -> false) in
+      (* the symptom kinds found over all crash / fault positions: "kind=a+b" *)
+      let kinds =
+        (try
+           ignore (Str.search_forward (Str.regexp "kind=\\([a-z0-9+]+\\)") impl 0);
+           String.split_on_char '+' (Str.matched_group 1 impl)
+         with Not_found -> []) in
+      let all_in allowed = kinds <> [] && List.for_all (fun k -> List.mem k allowed) kinds in
       (* a SaveVersion / rollback whose writes are flushed in several physical batches is not
-         crash-atomic; the listed symptoms are the recorded ones, anything else is reported *)
-      if o = "save" && (has "kind=loaderr)" || has "kind=indexahead)") then Some "C05-split-commit"
-      else if o = "save" && starts_with "fl(viol,op=save," impl && (has "kind=reopenerr," || has "kind=reopenmixture,") then Some "C05-split-commit"
-      else if o = "lvfo" && (has "kind=mixture)" || has "kind=loaderr)") then Some "C05-split-rollback"
-      else if o = "prune" && has "kind=retrydiffers)" then Some "C05-split-prune"
+         crash-atomic; the listed symptoms are the recorded ones, any other kind (alone or together
+         with a recorded one) is reported *)
+      if o = "save" && starts_with "cr(viol,op=save," impl && all_in [ "loaderr"; "indexahead" ] then Some "C05-split-commit"
+      else if o = "save" && starts_with "fl(viol,op=save," impl && all_in [ "reopenerr"; "reopenmixture" ] then Some "C05-split-commit"
+      else if o = "lvfo" && starts_with "cr(viol" impl && all_in [ "mixture"; "loaderr" ] then Some "C05-split-rollback"
+      else if o = "prune" && starts_with "cr(viol" impl && all_in [ "retrydiffers" ] then Some "C05-split-prune"
       else if o = "import" && has "kind=reopenerr," then
         (* position i of fl(viol,op=import_V,i=I/N,..): only after the first background batch *)
         (try
@@ -576,6 +584,8 @@ let make_m1 (params : string list) : machine =
             st := s';
             (match x with XOk -> rk := List.filter (fun w -> int_of_z w <= int_of_string v) !rk | _ -> ());
             show_out x
+        | [ "pintest"; v ] ->
+            if List.exists (fun (w, _) -> int_of_z w = int_of_string v) !st.forest then "pin(ok)" else "err"
         | [ "dvfrom"; v ] ->
             (* MutableTree.DeleteVersionsFrom(v) with the loaded version below v: the versions >= v
                go, the tree object stays as it is. MTree has no such operation: the forest is
